@@ -407,8 +407,8 @@ static void run_data(void)
 static const double fvec[NF] = { 1.0e9, 2.0e9, 3.0e9 };
 
 /* measurement of standard number k (see std_add) by an almost ideal VNA: M = S + small error */
-static cx *mrow[4];
-static cx mstore[4][NF];
+static cx *mrow[32];
+static cx mstore[32][NF];
 static void fill_m(const cx *s, int rows, int cols)
 {
     for (int c = 0; c < rows * cols; ++c) {
@@ -805,7 +805,7 @@ static void run_new(void)
     h_unknown = vnacal_make_unknown_parameter(vcp, h_scalar);
     h_deleted = vnacal_make_scalar_parameter(vcp, 0.7);
     vnacal_delete_parameter(vcp, h_deleted);
-    if (!strcmp(fn, "set_frequency_vector") || (!strcmp(fn, "solve") && a[1] == 1)) {
+    if (!strcmp(fn, "set_frequency_vector") || !strcmp(fn, "set_fv3") || (!strcmp(fn, "solve") && a[1] == 1)) {
 	vnp = vnacal_new_alloc(vcp, type, rows, cols, NF);	/* frequency vector not yet given */
     } else {
 	vnp = new_build(vcp, type, rows, cols, nstd, h_scalar);
@@ -838,6 +838,41 @@ static void run_new(void)
 	if (a[1] == 4) fv[1] = fv[0];
 	if (a[1] == 5) fv[2] = NAN;
 	ret_int(vnacal_new_set_frequency_vector(vnp, a[1] == 1 ? NULL : fv));
+    } else if (!strcmp(fn, "set_fv3")) {
+	/* a1..a3 = the three frequencies in GHz (-999 = NaN), a4 = 1: NULL vector */
+	double fv[NF];
+	for (int i = 0; i < NF; ++i) fv[i] = a[1 + i] == -999 ? NAN : (double)a[1 + i] * 1e9;
+	ret_int(vnacal_new_set_frequency_vector(vnp, a[4] == 1 ? NULL : fv));
+    } else if (!strcmp(fn, "add_generic")) {
+	/* str: b_null a_rows a_cols b_rows b_cols s_rows s_cols nmap p1 p2 p3 p4 ncells h1 .. h16 asing
+	 * (a_rows = a_cols = 0: no 'a' matrix; nmap = -1: NULL port map) */
+	long v[40];
+	int nv = 0;
+	int smat[16], map[4];
+	cx av[NF] = { 1.0, 1.0, 1.0 }, zv[NF] = { 0.0, 0.0, 0.0 };
+	cx *ap[32];
+	char *str2 = unhex(ntok > 17 ? tok[17] : "-");
+	for (char *q = strtok(str2, ","); q != NULL && nv < 40; q = strtok(NULL, ",")) v[nv++] = strtol(q, NULL, 10);
+	while (nv < 40) v[nv++] = 0;
+	for (int i = 0; i < 4; ++i) map[i] = (int)v[8 + i];
+	for (int i = 0; i < 16; ++i) smat[i] = (int)v[13 + i];
+	{
+	    cx s25[32];
+	    for (int i = 0; i < 32; ++i) s25[i] = 0.1 * (i % 5);
+	    for (int c = 0; c < 32; ++c) { for (int f = 0; f < NF; ++f) mstore[c][f] = s25[c] + 0.01 * rcx(); mrow[c] = mstore[c]; }
+	}
+	{
+	    int ac = (int)v[2] > 0 ? (int)v[2] : 1;
+	    for (int i = 0; i < 32; ++i) ap[i] = (v[1] == 1 || i / ac == i % ac) ? av : zv;	/* identity, or a row of ones */
+	    if (v[29] == 1) av[1] = 0.0;
+	}
+	if (v[1] == 0 && v[2] == 0)
+	    ret_int(vnacal_new_add_mapped_matrix_m(vnp, v[0] ? NULL : mrow, (int)v[3], (int)v[4], smat, (int)v[5], (int)v[6],
+			v[7] == -1 ? NULL : map));
+	else
+	    ret_int(vnacal_new_add_mapped_matrix(vnp, ap, (int)v[1], (int)v[2], v[0] ? NULL : mrow, (int)v[3], (int)v[4],
+			smat, (int)v[5], (int)v[6], v[7] == -1 ? NULL : map));
+	free(str2);
     } else if (!strcmp(fn, "set_z0")) ret_int(vnacal_new_set_z0(vnp, 75.0));
     else if (!strcmp(fn, "add_single_reflect_m")) {
 	/* a1 = s11 handle, a2 = port, a5 = m_rows, a6 = m_columns, a7: 1 = NULL m */
@@ -900,7 +935,7 @@ static void run_new(void)
     if (!vnp->vn_frequencies_valid && vnacal_new_set_frequency_vector(vnp, fvec) != 0) sfx = 1;
     if (sfx == 0) {
 	int have = vnp->vn_measurement_count;
-	int skip = (!strcmp(fn, "set_frequency_vector") || (!strcmp(fn, "solve") && a[1] == 1)) ? 0 : nstd;
+	int skip = (!strcmp(fn, "set_frequency_vector") || !strcmp(fn, "set_fv3") || (!strcmp(fn, "solve") && a[1] == 1)) ? 0 : nstd;
 	(void)have;
 	for (int k = skip; sfx == 0; ++k) {
 	    int rc = std_add(vnp, rows, cols, k, h_scalar);
